@@ -7,6 +7,7 @@ from ..stage import LineStage, replay_line
 from .common import *
 
 ARTEFACTS = ["G4-listings"]
+EXTRA_PROPS = [("B3.Props.Surface", "B3/Props/Surface.lean")]
 RULE = ("(1) Debug: format!(\"{:?}\") of Hasher, OutputReader and guts::ChunkState after every step of update/xof/seek histories, compared "
         "with the model's renderer, which is a function of flags, platform, counters, lengths and position only; every history is run "
         "twice with different keys/contexts/input bytes (same op kinds and lengths) and the Debug lines of the two runs must be "
@@ -79,7 +80,8 @@ def zero_oracle(op):
             m = re.match(r"^(\d+) (\d+) (\d+) (\d+)$", out)
             if not m:
                 return out == "-"       # the Lean driver has no memory model: it prints `-`
-            return int(m.group(3)) == 0 and int(m.group(2)) > 0
+            # (with an empty input in hash mode nothing in the object depends on a secret: zero positions is then fine)
+            return int(m.group(3)) == 0 and (int(m.group(2)) > 0 or op.endswith(" hash"))
         ok.replaces_equality = True     # memory scans have no counterpart in the Lean driver
         return ok
     return None
@@ -109,6 +111,17 @@ def stages(tier, seed, witness_search=False):
             # a read that stops inside a block, then leaving that block (seek / read to its end), then zeroize
             zs.append(Script([f"D zeroscan xs {ln} {ex}"], tags=("zeroize-reader-seek",)))
             zs.append(Script([f"D zeroscan xb {ln} {ex}"], tags=("zeroize-reader-boundary",)))
+    # the same scans in the other two modes: in `hash` mode the input itself is what must not survive (a chaining value of a
+    # one-chunk input of more than one block is input-derived), in `derive` mode the context key
+    for mode in ("hash", "derive"):
+        for ln in [0, 1, 64, 65, 100, 128, 1000, 1023, 1024, 1025, 5000, 70000]:
+            zs.append(Script([f"D zeroscan h {ln} 0 {mode}"], tags=("zeroize-hasher-" + mode,)))
+            zs.append(Script([f"D zeroscan hash {ln} 0 {mode}"], tags=("zeroize-hash-" + mode,)))
+            for ex in [0, 10, 64, 200]:
+                zs.append(Script([f"D zeroscan x {ln} {ex} {mode}"], tags=("zeroize-reader-" + mode,)))
+            for ex in [1, 63, 65]:
+                zs.append(Script([f"D zeroscan xs {ln} {ex} {mode}"], tags=("zeroize-reader-seek-" + mode,)))
+                zs.append(Script([f"D zeroscan xb {ln} {ex} {mode}"], tags=("zeroize-reader-boundary-" + mode,)))
     return [PairStage("debug", scripts), LineStage("zeroize-scan", zs, oracle=zero_oracle, max_minimise=2)]
 
 
